@@ -24,10 +24,11 @@ SPEC = dict(
          "distinct by (operation, state, flavour, k, n). "
          "Prepared states include files last written three days ago and (when /dev/shm is a separate file system; counted in "
          "states-with-TMPDIR-on-another-volume, no floor because the sandbox decides) runs with TMPDIR on another volume than the configuration directory. "
-         "after-earlier-writes-*: two ordinary saves (searches) succeed on the prepared state, the third fails after k bytes or is killed at a system call; the "
+         "faults-every-rename-refused: every rename / link call of the operation fails with one of seven error codes (strace fault injection without a count): the file stays complete. "
+         "after-earlier-writes-*: (also: a pipeline saved under a name, another save, then a pipeline saved under the same name with another command) two ordinary saves (searches) succeed on the prepared state, the third fails after k bytes or is killed at a system call; the "
          "file then holds what the second left or the complete third content.",
-    floors=T({"after-earlier-writes-new": 120, "after-earlier-writes-old": 60, "after-earlier-writes-on-files-written-days-ago": 24, "states-written-days-ago": 80, "faults-efbig-biting": 600, "faults-killed": 300, "killed-on:write": 50, "killed-on:fsync": 2, "killed-on:renameat": 2, "after-efbig-old": 1, "follow-up-after-kill": 15, "distinct_nontrivial": 900, "full-volume-runs": 25, "full-volume-with-leftover-files": 10, "efbig-dense-around-previous-length": 3, "in-process-sequences-with-a-failed-save": 12, "layout:hard-linked": 48, "layout:symlinked": 48},
-             {"after-earlier-writes-new": 120, "after-earlier-writes-old": 60, "after-earlier-writes-on-files-written-days-ago": 24, "states-written-days-ago": 80, "faults-efbig-biting": 20000, "faults-killed": 400, "killed-on:write": 50, "killed-on:fsync": 2, "killed-on:renameat": 2, "after-efbig-old": 1, "follow-up-after-kill": 15, "distinct_nontrivial": 20000, "full-volume-runs": 25, "full-volume-with-leftover-files": 10, "efbig-dense-around-previous-length": 3, "in-process-sequences-with-a-failed-save": 12, "layout:hard-linked": 48, "layout:symlinked": 48}),
+    floors=T({"faults-every-rename-refused": 250, "after-earlier-writes-new": 120, "after-earlier-writes-old": 60, "after-earlier-writes-on-files-written-days-ago": 24, "states-written-days-ago": 80, "faults-efbig-biting": 600, "faults-killed": 300, "killed-on:write": 50, "killed-on:fsync": 2, "killed-on:renameat": 2, "after-efbig-old": 1, "follow-up-after-kill": 15, "distinct_nontrivial": 900, "full-volume-runs": 25, "full-volume-with-leftover-files": 10, "efbig-dense-around-previous-length": 3, "in-process-sequences-with-a-failed-save": 12, "layout:hard-linked": 48, "layout:symlinked": 48},
+             {"faults-every-rename-refused": 250, "after-earlier-writes-new": 120, "after-earlier-writes-old": 60, "after-earlier-writes-on-files-written-days-ago": 24, "states-written-days-ago": 80, "faults-efbig-biting": 20000, "faults-killed": 400, "killed-on:write": 50, "killed-on:fsync": 2, "killed-on:renameat": 2, "after-efbig-old": 1, "follow-up-after-kill": 15, "distinct_nontrivial": 20000, "full-volume-runs": 25, "full-volume-with-leftover-files": 10, "efbig-dense-around-previous-length": 3, "in-process-sequences-with-a-failed-save": 12, "layout:hard-linked": 48, "layout:symlinked": 48}),
     assumptions=["a file that did not exist before and is empty afterwards counts as previous content",
                  "the Go runtime ignores SIGXFSZ, so RLIMIT_FSIZE yields a short write followed by EFBIG"],
 )
